@@ -103,10 +103,10 @@ def parseProphecy (s : String) : Option Prophecy :=
 def parseVals (s : String) : Option (List Validator) :=
   (listOf s ",").mapM (fun e =>
     match e.splitOn ":" with
-    | [i, p, b] => do
+    | [i, p, b, sb] => do
       let i ← i.toNat?
       let p ← p.toNat?
-      pure ⟨i, p, b == "1"⟩
+      pure ⟨i, p, b == "1", sb == "1"⟩
     | _ => none)
 
 def parseNatList (s : String) (sep : String) : Option (List Nat) := (listOf s sep).mapM (·.toNat?)
@@ -357,6 +357,8 @@ def chk (pred : String) (m : List (String × String)) : Option Bool :=
   | "gate" => do
     pure (Spec.C07.gateOK (← get m "kind") (← get m "res") ((← get m "paused") == "1") (listOf (← get m "bl") ",")
       (listOf (← get m "peggy") ",") (listOf (← get m "minted") ",") (← get m "recv") (← get m "symbol"))
+  | "pauseview" => do
+    pure (Spec.C07.pauseViewIsStore ((← get m "view") == "1") ((← get m "stored") == "1"))
   | "peggyreg" => do
     let final ← parseContent (← get m "final")
     pure (Spec.C07.peggyRegOK final (listOf (← get m "peggyb") ",") (listOf (← get m "peggya") ","))
@@ -401,8 +403,28 @@ def step (st : DState) (toks : List String) : DState × String :=
   | ["restart"] => ({ st with s := (stepWorld drvOrd ⟨st.vals, st.s⟩ .restart).s }, "ok")
   | ["val", i, p, b] =>
     match i.toNat?, p.toNat? with
-    | some i, some p => ({ st with vals := setVal st.vals ⟨i, p, b == "1"⟩ }, "ok")
+    | some i, some p => ({ st with vals := setVal st.vals ⟨i, p, b == "1", b == "1"⟩ }, "ok")
     | _, _ => (st, "bad-op")
+  | ["jail", i] =>
+    -- staking `Jail`: out of the power index at once, status still Bonded until the next staking EndBlocker
+    match i.toNat? with
+    | some i =>
+      if st.vals.any (fun v => v.id == i && v.bonded) then
+        ({ st with vals := st.vals.map (fun v => if v.id == i then { v with bonded := false } else v) }, "ok")
+      else (st, "noop")
+    | none => (st, "bad-op")
+  | ["unjail", i] =>
+    -- staking `Unjail` of a validator jailed earlier in this block: back into the power index, counted again
+    match i.toNat? with
+    | some i =>
+      if st.vals.any (fun v => v.id == i && !v.bonded && v.statusBonded) then
+        ({ st with vals := st.vals.map (fun v => if v.id == i then { v with bonded := true } else v) }, "ok")
+      else (st, "noop")
+    | none => (st, "bad-op")
+  | ["stakeend"] =>
+    -- the staking EndBlocker applies the validator-set updates: a jailed validator leaves the bonded status (one of
+    -- zero power has no "last power" record and is not looked at)
+    ({ st with vals := st.vals.map (fun v => if v.bonded || v.power == 0 then v else { v with statusBonded := false }) }, "ok")
   | ["fund", a, d, n] =>
     match a.toNat?, n.toNat? with
     | some a, some n => (addDenom { st with s := { st.s with bank := fund st.s.bank a d n } } d, "ok")
